@@ -160,7 +160,35 @@ def run(chk: Check):
             lo = [float(rng.randint(-5, 5)) for _ in range(d)]
             bounds = [lo, [l + p * rng.randint(4, 12) for l, p in zip(lo, prec)]]
             sp = SearchSpace(bounds, prec, False)
-        gsets = [{f2h(v) for v in g.tolist()} for g in sp.param_grid]
+        grid_ref = [np.array(g, copy=True) for g in sp.param_grid]
+        if si % 2 == 1:
+            # the caller goes on using (overwrites in place) the very lists / arrays it passed to SearchSpace, before anything was sampled:
+            # the space the samplers see is still the one that was declared
+            from black_it.search_space import SearchSpace
+            from props.c15 import scramble
+            import copy as _copy
+            b_in = np.array(bounds) if si % 4 == 1 else _copy.deepcopy(bounds)
+            p_in = np.array(prec) if si % 4 == 1 else _copy.deepcopy(prec)
+            sp_declared = sp
+            sp = SearchSpace(b_in, p_in, False)
+            scramble(b_in); scramble(p_in)
+            chk.count("space:arguments_overwritten_by_the_caller_after_construction")
+            try:
+                same = len(sp.param_grid) == len(grid_ref) and all(np.asarray(a).tobytes() == b.tobytes() for a, b in zip(sp.param_grid, grid_ref))
+            except Exception:  # noqa: BLE001
+                same = False
+            if not same:
+                # every sampler snaps onto this grid: the first proposal of any of them lies off the declared grid
+                from black_it.samplers.random_uniform import RandomUniformSampler
+                try:
+                    pt = RandomUniformSampler(batch_size=1, random_state=0).sample(sp, np.zeros((0, len(grid_ref))), np.zeros(0))[0].tolist()
+                except Exception as e:  # noqa: BLE001
+                    pt = f"{type(e).__name__}: {e}"
+                chk.fail(f"the search space declared with bounds {bounds} and precision {prec} hands the samplers another grid once the caller has overwritten the "
+                         f"{'arrays' if si % 4 == 1 else 'lists'} it passed to the constructor (before anything was sampled); RandomUniformSampler then proposes {pt}",
+                         {"case": {"kind": "space_args_reused", "bounds": bounds, "precision": prec, "arrays": si % 4 == 1}})
+                sp = sp_declared
+        gsets = [{f2h(v) for v in g.tolist()} for g in grid_ref]
         for name in NAMES:
             if name in ("GaussianProcessSampler", "CORSSampler") and sp.dims > 4 and chk.tier == "quick":
                 continue
